@@ -68,6 +68,16 @@ P = {
          "TLC-exhaustive interleavings in the bounded model; every recorded lookup of the real filter under churn across the switch "
          "must satisfy: stable range covers => true, true => some possibly-present range covers; race detector reports are violations",
          "witnessed schedules only (widened by seeded dwell inside the locked regions); Go race detector", "5/C12"),
+
+ "C18": ("spec/util/FileOps.tla",
+         "TLA+ model of the file-system state (names, inodes, symlinks, hard links, two devices) with CopyFile / MoveFile as one "
+         "system call per step and their failure branches; TLC explores every scenario and exports each with its predicted "
+         "outcome; the harness materialises every scenario on real directories (tmpfs as the second file system) and checks the "
+         "statement on the real outcome",
+         "exhaustive over the scenario space of the model (2 ops x 3 source kinds x 13 destination kinds incl. every aliasing form "
+         "and EXDEV); each scenario replayed on the real functions for 4 sizes; verdicts only from the statement (content of source / "
+         "destination vs. the snapshot), differences to the predicted tree are reported as drift",
+         "mid-copy I/O faults cannot be injected into the real call; second file system must exist (else skipped and counted)", "5/C18"),
 }
 
 NOT_BUILT_REASON = "check not built yet in this session (see DESIGN.md section 5 for the planned TLA+ spec and binding)"
